@@ -117,12 +117,12 @@ CLAIMED = {
  'C01': dict(
     text="Every function under contract carries, for ALL states satisfying the representation invariant and all arguments absent or <= 65535, the implicit obligations that no "
          "u32/i32/usize operation overflows, no unwrap/expect/panic!/index is reachable, and every callee's precondition holds; each also re-establishes the invariant, so the next call's "
-         "precondition holds (induction over call histories). Covered this way: every ParserListener method of Screen except select_graphic_rendition and define_charset (incl. draw, display, "
+         "precondition holds (induction over call histories). Covered this way: every ParserListener method of Screen (incl. draw, display, select_graphic_rendition, define_charset, "
          "resize with any size 1..65535), Parser::feed and ByteParser::feed (nothing but the assumed coroutine/listener/decoder steps can fail), and by Kani the three dispatchers for every "
          "final byte and parameter list. Loops: all are `for` loops over finite ranges/iterators; Verus proves termination for each (decreases), incl. the set_mode/resize/restore_cursor recursion. "
-         "NOT covered (stated gap): the recogniser closure in Parser::new (generator coroutine), select_graphic_rendition, define_charset, Parser::new/ByteParser::new, encoding_rs/generator-rs internals.",
+         "The recogniser closure is covered by unit F (no failing unwrap/index, no parameter above 9999 reaches the screen). NOT covered (stated gap): Parser::new/ByteParser::new, encoding_rs/generator-rs internals, a mutex guard held across a yield (deadlock: no contract here sees it).",
     design="5 C01", technique="Verus implicit safety obligations + wf pre/postconditions on the verbatim functions; Kani for the dispatchers",
-    note="As the general note. A panic introduced inside the recogniser closure, SGR or define_charset is NOT detectable by this check."),
+    note="As the general note. A hang caused by lock ordering (listener mutex held across a coroutine yield) is NOT detectable by this check."),
  'C03': dict(
     text="The shipping recogniser -- the body of the closure passed to Gn::new_scoped in Parser::new, #[cfg(not(test))] copy, cut out mechanically on every run (and compared with the "
          "#[cfg(test)] copy) -- is verified by Verus as a non-terminating procedure whose every yield carries the trace invariant as a precondition: the calls received by the listener so "
@@ -130,11 +130,12 @@ CLAIMED = {
          "is ground. The grammar is an explicit-state recogniser (spec fn step/run) written from the property statement: C0 controls, ESC-final, ESC # / % / ( ), CSI with decimal parameters "
          "(empty = 0, saturating at 9999 for digit runs of ANY length -- dec_val is a mathematical integer), ?, embedded controls, CAN/SUB, SP and >, $; OSC with BEL / U+009C / ESC \\. Unbounded: inputs of any "
          "length, both parser modes. Kani proves, loop-free over the full domain, that csi_/escape_/basic_dispatch route every final byte to the documented method with the documented parameter "
-         "positions and do nothing for unknown finals, and that the control tables/constants have the assumed values. The fast path of Parser::feed (plain text drawn directly) is covered by C02's fold contract.",
-    design="5 C03", technique="Verus trace-invariant proof of the extracted recogniser closure (precondition on every yield) + Kani full-domain dispatch proofs",
+         "positions and do nothing for unknown finals, and that the control tables/constants have the assumed values. The fast path of Parser::feed is composed with the recogniser by a verified lemma (lemma_feed_grammar, unit parser): the fold Parser::feed is proved to compute emits exactly the documented grammar's events "
+         "(in the ground state a character outside the documented SPECIAL set is text, everything else is the recogniser's step) and keeps taking_plain_text == (state is Ground), for data of any length; "
+         "Parser::is_special_start and the SPECIAL table's initialiser block are verified against that documented set.",
+    design="5 C03", technique="Verus trace-invariant proof of the extracted recogniser closure (precondition on every yield) + verified composition lemma with Parser::feed's fold contract + contracts on is_special_start/SPECIAL + Kani full-domain dispatch proofs",
     note="ASSUMED: generator-rs is a faithful coroutine (co.yield_ returns the next single character sent; the priming send is never read); Arc<Mutex<_>> used single-threaded; the shared use_utf8 flag is constant during a trace; "
-         "~20 one-line string call-outs (String==&str, contains, parse::<u64>, push, skip(1).collect, ...) listed in trusted_base; println! dropped. The composition 'events of feed(data) = fast-path draws + recogniser events' "
-         "is argued in DESIGN.md from C02's fold contract and this unit's ground signal, not machine-checked across the two units."),
+         "~20 one-line string call-outs (String==&str, contains, parse::<u64>, push, skip(1).collect, ...) listed in trusted_base; println! dropped. The one link between units parser and fsm is a definition: parser_fsm.send(c) is one step of the grammar from the coroutine's position, which is what unit F proves of the closure text between two yields."),
  'C19': dict(
     text="Unit F (see C03) proves for OSC strings of ANY length and content that the recogniser emits set_icon_name for code 0/1 and set_title for code 0/2 with exactly the characters between the first "
          "character after the code and the terminator (BEL, U+009C or ESC \\; a backslash, `;`, ESC x pairs and C0 controls other than BEL stay in the payload), nothing for other codes, no draw event for any "
